@@ -14,7 +14,10 @@ use svm::Ledger;
 
 fn worlds(thorough: bool) -> Vec<Built> {
     let mut v = vec![stdworlds::build_with_roots(&stdworlds::std_spec("c01-std-dff", [Enc::Dynamic, Enc::Fixed, Enc::Fixed], 3000, 300), &stdworlds::std_roots())];
-    v.push(stdworlds::build_with_roots(&stdworlds::std_spec("c01-std-fdd", [Enc::Fixed, Enc::Dynamic, Enc::Dynamic], 60000, 2500), &stdworlds::std_roots()[1..4]));
+    v.push(stdworlds::build_with_roots(&stdworlds::chain_spec("c01-chain-fdd", [Enc::Fixed, Enc::Dynamic, Enc::Dynamic], 60000, 2500), &stdworlds::chain_roots()));
+    if thorough {
+        v.push(stdworlds::build_with_roots(&stdworlds::std_spec("c01-std-fdd", [Enc::Fixed, Enc::Dynamic, Enc::Dynamic], 60000, 2500), &stdworlds::std_roots()[1..4]));
+    }
     if thorough {
         let splash_roots: Vec<(&'static str, Vec<Op>)> = vec![
             ("fresh", vec![]),
